@@ -127,6 +127,72 @@ proof fn lemma_fp9_consts()
     assert(canon9(SM9_MODP_MONT_FIVE@) && fe9(SM9_MODP_MONT_FIVE@) == 5) by(compute);
     assert(val4(SM9_ZERO@) == 0 && val4(SM9_ONE@) == 1) by(compute);
 }
+// the linear facts about the constants that the small functions need (keeps lemma_params9 / lemma_fp9_consts out of their contexts)
+proof fn fp9_lin()
+    ensures val4(SM9_P@) == P9(), val4(SM9_P_MINUS_ONE@) == P9() - 1, val4(SM9_MODP_MONT_ONE@) == r256() - P9(),
+        0 < P9(), P9() < r256(), r256() < 2 * P9(), val4(SM9_ZERO@) == 0, val4(SM9_ONE@) == 1,
+{
+    lemma_fp9_consts(); lemma_params9();
+}
+// ---- mont_mul: stage lemmas. The body of the exec function only sees facts that are linear in the limbs and in the products of the
+// u256_mul contracts; the Montgomery identity q * R == a * b + tl * p is carried by an opaque predicate ----
+#[verifier::opaque]
+pub open spec fn fp9_mmq(q: int, a: int, b: int, tl: int) -> bool { q * r256() == a * b + tl * P9() }
+// stage 1: z = a * b, t1 = low(z) * p', t = low(t1) * p, sum = z + t (with carry c), r = high(sum): q = r + c * 2^256 satisfies the identity and q < 2p
+proof fn fp9_mm_reduce(a: Seq<u64>, b: Seq<u64>, z: Seq<u64>, zl: Seq<u64>, t1: Seq<u64>, tl: Seq<u64>, t: Seq<u64>, sum: Seq<u64>, c: bool, r: Seq<u64>)
+    requires a.len() == 4, b.len() == 4, z.len() == 8, zl.len() == 4, t1.len() == 8, tl.len() == 4, t.len() == 8, sum.len() == 8, r.len() == 4,
+        val4(a) < P9(), val4(b) < P9(),
+        val8(z) == val4(a) * val4(b),
+        zl[0] == z[0], zl[1] == z[1], zl[2] == z[2], zl[3] == z[3],
+        val8(t1) == val4(zl) * val4(SM9_P_PRIME@),
+        tl[0] == t1[0], tl[1] == t1[1], tl[2] == t1[2], tl[3] == t1[3],
+        val8(t) == val4(tl) * val4(SM9_P@),
+        val8(sum) + (if c { r256() * r256() } else { 0 }) == val8(z) + val8(t),
+        r[0] == sum[4], r[1] == sum[5], r[2] == sum[6], r[3] == sum[7],
+    ensures fp9_mmq(val4(r) + (if c { r256() } else { 0 }), val4(a), val4(b), val4(tl)),
+        0 <= val4(r) + (if c { r256() } else { 0 }) < 2 * P9(),
+{
+    lemma_fp9_consts(); lemma_params9();
+    reveal(fp9_mmq);
+    let q = val4(r) + (if c { r256() } else { 0 });
+    let lo_z = z.subrange(0, 4); let hi_z = z.subrange(4, 8);
+    let lo_t = t1.subrange(0, 4); let hi_t = t1.subrange(4, 8);
+    let lo_s = sum.subrange(0, 4); let hi_s = sum.subrange(4, 8);
+    assert(zl =~= lo_z);
+    assert(tl =~= lo_t);
+    assert(r =~= hi_s);
+    lemma_val4_bounds(lo_z); lemma_val4_bounds(hi_z); lemma_val4_bounds(lo_t); lemma_val4_bounds(hi_t);
+    lemma_val4_bounds(lo_s); lemma_val4_bounds(hi_s);
+    lemma_val4_bounds(a); lemma_val4_bounds(b);
+    let zz = val8(z); let zlv = val4(lo_z); let rr = r256(); let pp = val4(SM9_P_PRIME@); let tlv = val4(tl);
+    assert(zz == val4(hi_z) * rr + zlv) by(nonlinear_arith) requires zz == zlv + rr * val4(hi_z);
+    lemma_fundamental_div_mod_converse(zz, rr, val4(hi_z), zlv);
+    assert(zlv * pp == val4(hi_t) * rr + tlv) by(nonlinear_arith) requires zlv * pp == tlv + rr * val4(hi_t);
+    lemma_fundamental_div_mod_converse(zlv * pp, rr, val4(hi_t), tlv);
+    assert(zz >= 0) by(nonlinear_arith) requires zz == val4(a) * val4(b), val4(a) >= 0, val4(b) >= 0;
+    lemma_fp9_mont_div(zz, zlv, tlv, pp, P9(), rr);
+    let tt = zz + tlv * P9();
+    assert(tt == q * rr + val4(lo_s)) by(nonlinear_arith)
+        requires tt == val4(lo_s) + rr * val4(hi_s) + (if c { rr * rr } else { 0 }), q == val4(hi_s) + (if c { rr } else { 0 });
+    lemma_fundamental_div_mod_converse(tt, rr, q, val4(lo_s));
+    assert(q * rr == val4(a) * val4(b) + tlv * P9());
+    lemma_fp9_mont_q(val4(a), val4(b), tlv, q, P9(), rr);
+}
+// stage 2: the conditional final correction brings q into [0, p); each case of the code is a separate conjunct
+proof fn fp9_mm_final(a: int, b: int, tl: int, r0v: int, rv: int, c: bool)
+    requires fp9_mmq(r0v + (if c { r256() } else { 0 }), a, b, tl),
+        0 <= r0v + (if c { r256() } else { 0 }) < 2 * P9(),
+        0 <= r0v < r256(), 0 <= rv < r256(),
+        c ==> (rv == r0v + (r256() - P9()) || rv == r0v - P9()),
+        !c && r0v >= P9() ==> (rv == r0v - P9() || rv == r0v - P9() + r256()),
+        !c && r0v < P9() ==> rv == r0v,
+    ensures rv < P9(), (rv * r256()) % P9() == (a * b) % P9(), fev9(rv) == (fev9(a) * fev9(b)) % P9(),
+{
+    lemma_params9();
+    reveal(fp9_mmq);
+    let q = r0v + (if c { r256() } else { 0 });
+    lemma_fp9_mont_post(a, b, tl, q, rv);
+}
 //@section spec
 use vstd::arithmetic::mul::*;
 // ---------------------------------------------------------------- modular arithmetic helpers (generic modulus)
@@ -344,7 +410,13 @@ pub proof fn lemma_fp9_shr256(a: Seq<u64>, c: u64, n: Seq<u64>)
     requires a.len() == 4, n.len() == 4, c <= 1,
         n[0] == (a[0] >> 1) | ((a[1] & 1) << 63), n[1] == (a[1] >> 1) | ((a[2] & 1) << 63),
         n[2] == (a[2] >> 1) | ((a[3] & 1) << 63), n[3] == (a[3] >> 1) | ((c & 1) << 63),
-    ensures 2 * val4(n) == val4(a) - (a[0] & 1) as int + (if c == 1 { r256() } else { 0 })
+    ensures 2 * val4(n) == val4(a) - (a[0] & 1) as int + (if c == 1 { r256() } else { 0 }),
+        // the same, limb by limb (fail-fast hint: lets the solver compute the limbs of n instead of searching for them)
+        (a[0] & 1) <= 1, (a[1] & 1) <= 1, (a[2] & 1) <= 1, (a[3] & 1) <= 1,
+        2 * (n[0] as int) == a[0] as int - (a[0] & 1) as int + 0x1_0000_0000_0000_0000int * (a[1] & 1) as int,
+        2 * (n[1] as int) == a[1] as int - (a[1] & 1) as int + 0x1_0000_0000_0000_0000int * (a[2] & 1) as int,
+        2 * (n[2] as int) == a[2] as int - (a[2] & 1) as int + 0x1_0000_0000_0000_0000int * (a[3] & 1) as int,
+        2 * (n[3] as int) == a[3] as int - (a[3] & 1) as int + 0x1_0000_0000_0000_0000int * (c as int),
 {
     let a0 = a[0]; let a1 = a[1]; let a2 = a[2]; let a3 = a[3];
     lemma_fp9_shr1(a0, a1); lemma_fp9_shr1(a1, a2); lemma_fp9_shr1(a2, a3); lemma_fp9_shr1(a3, c);
@@ -421,6 +493,7 @@ pub open spec fn fp9_hv(e: Seq<u64>, k: int) -> int {
 pub proof fn lemma_fp9_hv_step(e: Seq<u64>, k: int) requires e.len() == 4, 0 <= k < 4
     ensures fp9_hv(e, k + 1) == fp9_hv(e, k) * 0x1_0000_0000_0000_0000int + e[3 - k] as int, fp9_hv(e, k) >= 0
 { }
+pub proof fn lemma_fp9_mul_eq(x: int, y: int, z: int) requires y == z ensures x * y == x * z { }
 pub open spec fn fp9_p2(n: int) -> int decreases n { if n <= 0 { 1 } else { 2 * fp9_p2(n - 1) } }
 pub proof fn lemma_fp9_p2_64() ensures fp9_p2(64) == 0x1_0000_0000_0000_0000int
 { assert(fp9_p2(64) == 0x1_0000_0000_0000_0000int) by(compute); }
@@ -439,9 +512,100 @@ pub proof fn lemma_fp9_pow_step(x: int, pre: nat, hv: int, pw: int, top: int, bi
         assert((2 * pre + 1 - 1) as nat == 2 * pre);
     }
 }
+// ---------------------------------------------------------------- digit-wise form of the limb operations (fail-fast hints)
+// The value-level contracts of u256_add / u256_sub are single equations with coefficients 2^64..2^192 over twelve limbs. When an
+// obligation of a caller is false the solver has to produce limbs satisfying them, and its integer search on such an equation is what
+// exhausts the resource limit. The schoolbook rows below (carries are functions of the inputs) let it compute a witness by propagation.
+pub open spec fn fp9_cy(a: int, b: int, c: int) -> int { if a + b + c >= 0x1_0000_0000_0000_0000int { 1int } else { 0int } }
+pub open spec fn fp9_bw(a: int, b: int, c: int) -> int { if a - b - c < 0 { 1int } else { 0int } }
+pub open spec fn fp9_add_dig(a: Seq<u64>, b: Seq<u64>, r: Seq<u64>) -> bool {
+    let c0 = fp9_cy(a[0] as int, b[0] as int, 0);
+    let c1 = fp9_cy(a[1] as int, b[1] as int, c0);
+    let c2 = fp9_cy(a[2] as int, b[2] as int, c1);
+    let c3 = fp9_cy(a[3] as int, b[3] as int, c2);
+    r[0] as int == a[0] as int + b[0] as int - 0x1_0000_0000_0000_0000int * c0
+    && r[1] as int == a[1] as int + b[1] as int + c0 - 0x1_0000_0000_0000_0000int * c1
+    && r[2] as int == a[2] as int + b[2] as int + c1 - 0x1_0000_0000_0000_0000int * c2
+    && r[3] as int == a[3] as int + b[3] as int + c2 - 0x1_0000_0000_0000_0000int * c3
+}
+// carry out of the 256-bit addition
+pub open spec fn fp9_add_cy(a: Seq<u64>, b: Seq<u64>) -> bool {
+    fp9_cy(a[3] as int, b[3] as int, fp9_cy(a[2] as int, b[2] as int, fp9_cy(a[1] as int, b[1] as int, fp9_cy(a[0] as int, b[0] as int, 0)))) == 1
+}
+pub open spec fn fp9_sub_dig(a: Seq<u64>, b: Seq<u64>, r: Seq<u64>) -> bool {
+    let b0 = fp9_bw(a[0] as int, b[0] as int, 0);
+    let b1 = fp9_bw(a[1] as int, b[1] as int, b0);
+    let b2 = fp9_bw(a[2] as int, b[2] as int, b1);
+    let b3 = fp9_bw(a[3] as int, b[3] as int, b2);
+    r[0] as int == a[0] as int - b[0] as int + 0x1_0000_0000_0000_0000int * b0
+    && r[1] as int == a[1] as int - b[1] as int - b0 + 0x1_0000_0000_0000_0000int * b1
+    && r[2] as int == a[2] as int - b[2] as int - b1 + 0x1_0000_0000_0000_0000int * b2
+    && r[3] as int == a[3] as int - b[3] as int - b2 + 0x1_0000_0000_0000_0000int * b3
+}
+pub open spec fn fp9_sub_bw(a: Seq<u64>, b: Seq<u64>) -> bool {
+    fp9_bw(a[3] as int, b[3] as int, fp9_bw(a[2] as int, b[2] as int, fp9_bw(a[1] as int, b[1] as int, fp9_bw(a[0] as int, b[0] as int, 0)))) == 1
+}
+// r = a + b mod 2^256 (the carry flag may have been discarded by the caller)
+pub proof fn fp9_add_digits(a: Seq<u64>, b: Seq<u64>, r: Seq<u64>)
+    requires a.len() == 4, b.len() == 4, r.len() == 4,
+        val4(r) - val4(a) - val4(b) == 0 || val4(r) - val4(a) - val4(b) == -r256(),
+    ensures fp9_add_dig(a, b, r), fp9_add_cy(a, b) == (val4(r) - val4(a) - val4(b) != 0), fp9_add_cy(a, b) == (val4(a) + val4(b) >= r256()),
+{
+    let c0 = fp9_cy(a[0] as int, b[0] as int, 0);
+    let c1 = fp9_cy(a[1] as int, b[1] as int, c0);
+    let c2 = fp9_cy(a[2] as int, b[2] as int, c1);
+    let c3 = fp9_cy(a[3] as int, b[3] as int, c2);
+    let r0 = (a[0] as int + b[0] as int - 0x1_0000_0000_0000_0000int * c0) as u64;
+    let r1 = (a[1] as int + b[1] as int + c0 - 0x1_0000_0000_0000_0000int * c1) as u64;
+    let r2 = (a[2] as int + b[2] as int + c1 - 0x1_0000_0000_0000_0000int * c2) as u64;
+    let r3 = (a[3] as int + b[3] as int + c2 - 0x1_0000_0000_0000_0000int * c3) as u64;
+    let rp = seq![r0, r1, r2, r3];
+    assert(val4(rp) + c3 * r256() == val4(a) + val4(b));
+    lemma_val4_bounds(rp); lemma_val4_bounds(r);
+    assert(val4(rp) == val4(r));
+    lemma_val4_inj(r, rp);
+}
+// r = a - b mod 2^256 (the borrow flag may have been discarded by the caller)
+pub proof fn fp9_sub_digits(a: Seq<u64>, b: Seq<u64>, r: Seq<u64>)
+    requires a.len() == 4, b.len() == 4, r.len() == 4,
+        val4(r) - val4(a) + val4(b) == 0 || val4(r) - val4(a) + val4(b) == r256(),
+    ensures fp9_sub_dig(a, b, r), fp9_sub_bw(a, b) == (val4(r) - val4(a) + val4(b) != 0), fp9_sub_bw(a, b) == (val4(a) < val4(b)),
+{
+    let b0 = fp9_bw(a[0] as int, b[0] as int, 0);
+    let b1 = fp9_bw(a[1] as int, b[1] as int, b0);
+    let b2 = fp9_bw(a[2] as int, b[2] as int, b1);
+    let b3 = fp9_bw(a[3] as int, b[3] as int, b2);
+    let r0 = (a[0] as int - b[0] as int + 0x1_0000_0000_0000_0000int * b0) as u64;
+    let r1 = (a[1] as int - b[1] as int - b0 + 0x1_0000_0000_0000_0000int * b1) as u64;
+    let r2 = (a[2] as int - b[2] as int - b1 + 0x1_0000_0000_0000_0000int * b2) as u64;
+    let r3 = (a[3] as int - b[3] as int - b2 + 0x1_0000_0000_0000_0000int * b3) as u64;
+    let rp = seq![r0, r1, r2, r3];
+    assert(val4(rp) - b3 * r256() == val4(a) - val4(b));
+    lemma_val4_bounds(rp); lemma_val4_bounds(r);
+    assert(val4(rp) == val4(r));
+    lemma_val4_inj(r, rp);
+}
+// whatever 256-bit operation (a + b, a - b or b - a, modulo 2^256) produced r from a and b: its digit rows. No precondition, so this hint
+// itself never fails; it is placed right after a u256_add / u256_sub call, before the obligation that states which operation was expected.
+pub open spec fn fp9_any_dig(a: Seq<u64>, b: Seq<u64>, r: Seq<u64>) -> bool {
+    ((val4(r) - val4(a) - val4(b) == 0 || val4(r) - val4(a) - val4(b) == -r256()) ==> fp9_add_dig(a, b, r) && fp9_add_cy(a, b) == (val4(r) - val4(a) - val4(b) != 0))
+    && ((val4(r) - val4(a) + val4(b) == 0 || val4(r) - val4(a) + val4(b) == r256()) ==> fp9_sub_dig(a, b, r) && fp9_sub_bw(a, b) == (val4(r) - val4(a) + val4(b) != 0))
+    && ((val4(r) - val4(b) + val4(a) == 0 || val4(r) - val4(b) + val4(a) == r256()) ==> fp9_sub_dig(b, a, r) && fp9_sub_bw(b, a) == (val4(r) - val4(b) + val4(a) != 0))
+    && 0 <= val4(r) < r256()
+}
+pub proof fn fp9_digits_any(a: Seq<u64>, b: Seq<u64>, r: Seq<u64>)
+    requires a.len() == 4, b.len() == 4, r.len() == 4,
+    ensures fp9_any_dig(a, b, r)
+{
+    lemma_val4_bounds(r);
+    if val4(r) - val4(a) - val4(b) == 0 || val4(r) - val4(a) - val4(b) == -r256() { fp9_add_digits(a, b, r); }
+    if val4(r) - val4(a) + val4(b) == 0 || val4(r) - val4(a) + val4(b) == r256() { fp9_sub_digits(a, b, r); }
+    if val4(r) - val4(b) + val4(a) == 0 || val4(r) - val4(b) + val4(a) == r256() { fp9_sub_digits(b, a, r); }
+}
 //@section code gm-sm9/src/fields/fp.rs
 type Fp = U256;
 
+#[verifier::spinoff_prover]
 fn fp_pow(a: &Fp, e: &U256) -> (r: Fp)
     requires canon9(a@)
     ensures canon9(r@), fe9(r@) == pow_mod(fe9(a@), val4(e@) as nat, P9())
@@ -502,7 +666,7 @@ fn fp_pow(a: &Fp, e: &U256) -> (r: Fp)
         }
         proof {
             lemma_fp9_p2_64();
-            assert(w0 * pw == w0 * 0x1_0000_0000_0000_0000int) by(nonlinear_arith) requires pw == 0x1_0000_0000_0000_0000int;
+            lemma_fp9_mul_eq(w0, pw, 0x1_0000_0000_0000_0000int);
             assert(top == w0);
             assert(w0 == e@[3 - k] as int);
         }
@@ -548,6 +712,7 @@ fn fp_from_bytes(buf: &[u8]) -> (r: Fp)
     t
 }
 
+#[verifier::spinoff_prover]
 fn mont_mul(a: &Fp, b: &Fp) -> (res: Fp)
     requires canon9(a@), canon9(b@)
     ensures canon9(res@), (val4(res@) * r256()) % P9() == (val4(a@) * val4(b@)) % P9(), fe9(res@) == (fe9(a@) * fe9(b@)) % P9()
@@ -578,32 +743,12 @@ fn mont_mul(a: &Fp, b: &Fp) -> (res: Fp)
 
     // r = high(r)
     r = [z[4], z[5], z[6], z[7]];
-    let ghost q = val4(r@) + (if c { r256() } else { 0 });
-    let ghost tl = val4(t_low@);
+    let ghost r0 = r@;
     proof {
-        lemma_fp9_consts(); lemma_params9();
-        let lo_z = z0.subrange(0, 4); let hi_z = z0.subrange(4, 8);
-        let lo_t = t1@.subrange(0, 4); let hi_t = t1@.subrange(4, 8);
-        let lo_s = sum@.subrange(0, 4); let hi_s = sum@.subrange(4, 8);
-        assert(z_low@ =~= lo_z);
-        assert(t_low@ =~= lo_t);
-        assert(r@ =~= hi_s);
-        lemma_val4_bounds(lo_z); lemma_val4_bounds(hi_z); lemma_val4_bounds(lo_t); lemma_val4_bounds(hi_t);
-        lemma_val4_bounds(lo_s); lemma_val4_bounds(hi_s);
-        lemma_val4_bounds(a@); lemma_val4_bounds(b@);
-        let zz = val8(z0); let zl = val4(lo_z); let rr = r256(); let pp = val4(SM9_P_PRIME@);
-        assert(zz == val4(hi_z) * rr + zl) by(nonlinear_arith) requires zz == zl + rr * val4(hi_z);
-        lemma_fundamental_div_mod_converse(zz, rr, val4(hi_z), zl);
-        assert(zl * pp == val4(hi_t) * rr + tl) by(nonlinear_arith) requires zl * pp == tl + rr * val4(hi_t);
-        lemma_fundamental_div_mod_converse(zl * pp, rr, val4(hi_t), tl);
-        assert(zz >= 0) by(nonlinear_arith) requires zz == val4(a@) * val4(b@), val4(a@) >= 0, val4(b@) >= 0;
-        lemma_fp9_mont_div(zz, zl, tl, pp, P9(), rr);
-        let tt = zz + tl * P9();
-        assert(tt == q * rr + val4(lo_s)) by(nonlinear_arith)
-            requires tt == val4(lo_s) + rr * val4(hi_s) + (if c { rr * rr } else { 0 }), q == val4(hi_s) + (if c { rr } else { 0 });
-        lemma_fundamental_div_mod_converse(tt, rr, q, val4(lo_s));
-        assert(q * rr == val4(a@) * val4(b@) + tl * P9());
-        lemma_fp9_mont_q(val4(a@), val4(b@), tl, q, P9(), rr);
+        fp9_mm_reduce(a@, b@, z0, z_low@, t1@, t_low@, t@, sum@, c, r0);
+        fp9_lin(); lemma_val4_bounds(r0);
+        // boundary point of the comparison below
+        if val4(r0) == val4(SM9_P@) { lemma_val4_inj(r0, SM9_P@); }
     }
     if c {
         r = u256_add(&r, &SM9_MODP_MONT_ONE).0;
@@ -611,8 +756,12 @@ fn mont_mul(a: &Fp, b: &Fp) -> (res: Fp)
         r = u256_sub(&r, &SM9_P).0
     }
     proof {
-        lemma_val4_bounds(r@);
-        lemma_fp9_mont_post(val4(a@), val4(b@), tl, q, val4(r@));
+        fp9_digits_any(r0, SM9_MODP_MONT_ONE@, r@); fp9_digits_any(r0, SM9_P@, r@);
+        fp9_digits_any(a@, SM9_MODP_MONT_ONE@, r@); fp9_digits_any(a@, SM9_P@, r@); fp9_digits_any(b@, SM9_MODP_MONT_ONE@, r@); fp9_digits_any(b@, SM9_P@, r@); // (a wrong first operand)
+        // one call per case of the code, so that a wrong case is refuted under its own path condition
+        if c { fp9_mm_final(val4(a@), val4(b@), val4(t_low@), val4(r0), val4(r@), c); }
+        else if val4(r0) >= P9() { fp9_mm_final(val4(a@), val4(b@), val4(t_low@), val4(r0), val4(r@), c); }
+        else { fp9_mm_final(val4(a@), val4(b@), val4(t_low@), val4(r0), val4(r@), c); }
     }
     r
 }
@@ -660,16 +809,21 @@ impl FieldElement for Fp {
         self.fp_double().fp_add(self)
     }
 
+    #[verifier::spinoff_prover]
     fn fp_add(&self, rhs: &Self) -> Self {
         let (r, c) = u256_add(self, rhs);
         proof {
-            lemma_fp9_consts(); lemma_params9();
+            fp9_lin();
             lemma_val4_bounds(r@); lemma_val4_bounds(self@); lemma_val4_bounds(rhs@);
+            fp9_digits_any(self@, rhs@, r@); fp9_digits_any(self@, self@, r@); fp9_digits_any(rhs@, rhs@, r@);
+            if val4(r@) == val4(SM9_P@) { lemma_val4_inj(r@, SM9_P@); }
         }
         if c {
             let (diff, _borrow) = u256_add(&r, &SM9_MODP_MONT_ONE);
             proof {
                 lemma_val4_bounds(diff@);
+                fp9_digits_any(r@, SM9_MODP_MONT_ONE@, diff@);
+                fp9_digits_any(self@, SM9_MODP_MONT_ONE@, diff@); fp9_digits_any(rhs@, SM9_MODP_MONT_ONE@, diff@); // (a wrong first operand)
                 lemma_fp9_add_post(val4(self@), val4(rhs@), val4(diff@));
             }
             return diff;
@@ -678,6 +832,8 @@ impl FieldElement for Fp {
             let (diff, _borrow) = u256_sub(&r, &SM9_P);
             proof {
                 lemma_val4_bounds(diff@);
+                fp9_digits_any(r@, SM9_P@, diff@);
+                fp9_digits_any(self@, SM9_P@, diff@); fp9_digits_any(rhs@, SM9_P@, diff@); // (a wrong first operand)
                 lemma_fp9_add_post(val4(self@), val4(rhs@), val4(diff@));
             }
             return diff;
@@ -686,16 +842,20 @@ impl FieldElement for Fp {
         r
     }
 
+    #[verifier::spinoff_prover]
     fn fp_sub(&self, rhs: &Self) -> Self {
         let (raw_diff, borrow) = u256_sub(&self, rhs);
         proof {
-            lemma_fp9_consts(); lemma_params9();
+            fp9_lin();
             lemma_val4_bounds(raw_diff@); lemma_val4_bounds(self@); lemma_val4_bounds(rhs@);
+            fp9_digits_any(self@, rhs@, raw_diff@); fp9_digits_any(self@, self@, raw_diff@); fp9_digits_any(rhs@, rhs@, raw_diff@);
         }
         if borrow {
             let (diff, _borrow) = u256_sub(&raw_diff, &SM9_MODP_MONT_ONE);
             proof {
                 lemma_val4_bounds(diff@);
+                fp9_digits_any(raw_diff@, SM9_MODP_MONT_ONE@, diff@);
+                fp9_digits_any(self@, SM9_MODP_MONT_ONE@, diff@); fp9_digits_any(rhs@, SM9_MODP_MONT_ONE@, diff@); // (a wrong first operand)
                 lemma_fp9_sub_post(val4(self@), val4(rhs@), val4(diff@));
             }
             diff
@@ -709,23 +869,32 @@ impl FieldElement for Fp {
         mont_mul(self, rhs)
     }
 
+    #[verifier::spinoff_prover]
     fn fp_neg(&self) -> Self {
-        proof { lemma_fp9_consts(); lemma_params9(); lemma_val4_bounds(self@); lemma_fp9_zero(self@); lemma_fp9_seq1(fe9(self@), 0); }
+        proof { fp9_lin(); lemma_val4_bounds(self@); lemma_fp9_zero(self@); lemma_fp9_seq1(fe9(self@), 0); }
         if self.is_zero() {
             proof { lemma_fp9_neg_post(val4(self@), val4(self@)); }
             self.clone()
         } else {
-            proof { lemma_fp9_neg_post(val4(self@), P9() - val4(self@)); }
+            proof {
+                // the result of the subtraction below cannot be named: give the digit rows for every candidate
+                assert forall|d: Seq<u64>| d.len() == 4 && #[trigger] val4(d) >= 0 implies fp9_any_dig(SM9_P@, self@, d) by {
+                    fp9_digits_any(SM9_P@, self@, d);
+                }
+                lemma_fp9_neg_post(val4(self@), P9() - val4(self@));
+            }
             u256_sub(&SM9_P, self).0
         }
     }
 
+    #[verifier::spinoff_prover]
     fn fp_div2(&self) -> Self {
         let mut r = self.clone();
         let mut c = 0;
-        proof { lemma_fp9_consts(); lemma_val4_bounds(self@); }
+        proof { fp9_lin(); lemma_val4_bounds(self@); }
         if r[0] & 0x01 == 1 {
             let (sum, carry) = u256_add(self, &SM9_P);
+            proof { fp9_digits_any(self@, SM9_P@, sum@); fp9_digits_any(self@, self@, sum@); }
             c = carry as u64;
             r = sum;
         } else {
